@@ -143,3 +143,170 @@ def own_jouguet_velocity(chk: Check, rule: str) -> None:
                            "compares with another model's vJ", key=f"own-vJ|{sc.qual}|{n(c)[:60]}")
     chk.ob(rule, "src/WallGo/hydrodynamics.py", f"all {own} branch decisions of Hydrodynamics that involve a Jouguet velocity use self.vJ", own >= 3,
            f"{own} comparisons with self.vJ", key="own-vJ|all")
+
+
+def flag_fresh_before_read(chk: Check, rule: str, cls_name: str = "hydrodynamics:Hydrodynamics", flag: str = "success") -> None:
+    """`self.<flag>` records whether the LAST solve converged.  A method that branches on it must have performed (or called a method that
+    performs) a solve that writes it, on every path to the read: otherwise the decision is taken on the outcome of an earlier, unrelated call
+    (a fresh object starts with the flag down, a previous unconverged matching leaves it down)."""
+    S = chk.src
+    ci = S.cls(cls_name)
+    # methods that write the flag on every path to their normal exit
+    always: set[str] = set()
+    sometimes: set[str] = set()
+    changed = True
+    cfgs = {m: CFG(f.node) for m, f in ci.methods.items()}
+
+    def writes(node) -> bool:
+        if isinstance(node, (ast.Assign, ast.AugAssign, ast.AnnAssign)):
+            for t in (node.targets if isinstance(node, ast.Assign) else [node.target]):
+                for x in ast.walk(t):
+                    if isinstance(x, ast.Attribute) and x.attr == flag and isinstance(x.value, ast.Name) and x.value.id == "self":
+                        return True
+        for c in (y for y in ast.walk(node) if isinstance(y, ast.Call)) if isinstance(node, ast.AST) else []:
+            if isinstance(c.func, ast.Attribute) and isinstance(c.func.value, ast.Name) and c.func.value.id == "self" and c.func.attr in always:
+                return True
+        return False
+
+    while changed:
+        changed = False
+        for m, f in ci.methods.items():
+            if m in always or m == "__init__":
+                continue
+            g = cfgs[m]
+            if any(writes(q) for q in g.nodes if g.kind.get(q) not in ("def", "handler")):
+                sometimes.add(m)
+                if g.must_pass(CFG.ENTRY, CFG.EXIT, lambda q: g.kind.get(q) not in ("def", "handler") and writes(q)):
+                    always.add(m)
+                    changed = True
+    nreads = 0
+    for m, f in ci.methods.items():
+        if m == "__init__":
+            continue
+        g = cfgs[m]
+        for q in g.nodes:
+            if g.kind.get(q) in ("def", "handler"):
+                continue
+            reads = [x for x in _own_walk(q) if isinstance(x, ast.Attribute) and x.attr == flag and isinstance(x.ctx, ast.Load)
+                     and isinstance(x.value, ast.Name) and x.value.id == "self"]
+            if not reads:
+                continue
+            nreads += 1
+            ok = g.must_pass(CFG.ENTRY, q, lambda z: z is not q and g.kind.get(z) not in ("def", "handler") and writes(z))
+            chk.touch(f.name)
+            chk.ob(rule, f.where(q), f"{f.qual}: `self.{flag}` is read only after a solve of this very call has written it (every path to the read "
+                   f"passes an assignment of the flag or a call of {sorted(always) or '[]'})", ok, f"`{n(q)[:80]}`", key=f"fresh-flag|{f.qual}")
+    if nreads < 1:
+        raise AnchorMissing(f"{cls_name}: no read of self.{flag} found")
+
+
+def _own_walk(node):
+    """nodes of a CFG node without descending into nested function definitions"""
+    stack = [node]
+    while stack:
+        x = stack.pop()
+        yield x
+        for c in ast.iter_child_nodes(x):
+            if not isinstance(c, (ast.FunctionDef, ast.AsyncFunctionDef, ast.ClassDef, ast.Lambda)):
+                stack.append(c)
+
+
+WALL_VELOCITY_NAMES = {"wallVelocity", "vw", "vwTry", "wallVelocityLTE", "vmin", "vmax", "wallVelocityMin", "wallVelocityMax", "vw1", "vw2", "vw3",
+                       "wallVelocityStart", "wallVelocityMid"}
+
+
+def jouguet_compared_with_wall_velocity(chk: Check, rule: str) -> None:
+    """vJ is a threshold for the WALL velocity.  In the wall solver every comparison with the hydrodynamics' vJ must have a wall velocity on the
+    other side (a parameter / local in the wall-velocity role, or min/max/abs/arithmetics with small constants of such), never a plasma velocity
+    such as the mid-wall fluid velocity (v+ + v-)/2: walls just above vJ have plasma velocities below it."""
+    S = chk.src
+    ci = S.cls("equationOfMotion:EOM")
+    count = 0
+    for m, f in ci.methods.items():
+        scopes = [f] + [x for x in S.modules[f.module].funcs.values() if x.parent is f]
+        for sc in scopes:
+            cx = Ctx(S, sc)
+            for c in (y for y in ast.walk(sc.node) if isinstance(y, ast.Compare)):
+                sides = [c.left] + list(c.comparators)
+                if not any(isinstance(x, ast.Attribute) and x.attr == "vJ" for s_ in sides for x in ast.walk(s_)):
+                    continue
+                others = [s_ for s_ in sides if not any(isinstance(x, ast.Attribute) and x.attr == "vJ" for x in ast.walk(s_))]
+                count += 1
+                bad = []
+                for o in others:
+                    role_ok = False
+                    for r in (o, cx.resolve(o, maxdepth=1)):       # as written (a name in the wall-velocity role), or one temporary looked through
+                        names = {x.id for x in ast.walk(r) if isinstance(x, ast.Name)} - {"np", "abs", "min", "max", "float", "self"}
+                        attrs = {x.attr for x in ast.walk(r) if isinstance(x, ast.Attribute)}
+                        if (not names and not attrs) or (names <= WALL_VELOCITY_NAMES and attrs <= {"wallVelocity", "vJ", "hydrodynamics", "vMin", "vBracketLow"}):
+                            role_ok = True
+                    if not role_ok:
+                        bad.append(n(o))
+                chk.touch(sc.name)
+                chk.ob(rule, sc.where(c), f"{sc.qual}: `{n(c)[:70]}` compares the Jouguet velocity with a wall velocity", not bad,
+                       f"other side: {bad}", key=f"vJ-vs-wall-velocity|{sc.qual}|{n(c)[:50]}")
+    if count < 2:
+        raise AnchorMissing("EOM: comparisons of a wall velocity with hydrodynamics.vJ not found")
+
+
+def per_object_state(chk: Check, rule: str, classes: tuple) -> None:
+    """results are a function of the object's own model and inputs: no mutable class-level attribute of these classes is mutated in place by
+    their methods (a class-level cache / list is shared by every instance, so a second model would read the first model's entries)"""
+    from ..core import shared_mutable_class_state
+    S = chk.src
+    hits = [h for h in shared_mutable_class_state(S) if h[2] in classes]
+    chk.ob(rule, "src/WallGo", f"no method of {', '.join(classes)} mutates a mutable class-level attribute in place (caches and bookkeeping are per instance)",
+           not hits, "; ".join(f"{f.qual} mutates class-level `{a}` of {c}" for f, x, c, a in hits)[:300], key="per-object-state|" + "+".join(classes))
+
+
+def called_for_effect_mutates(chk: Check, rule: str, method: str) -> None:
+    """A method that the package calls as a bare statement (`x.<method>(...)`, result discarded) is relied upon to change its receiver.  Every
+    definition of that method in the package must then really modify `self` (store to an attribute / item of self, or call -- again for effect --
+    a method of one of its attributes that does): a definition that computes a new object and returns it turns those call sites into no-ops."""
+    S = chk.src
+    sites = []
+    for m in S.modules.values():
+        for fi in m.funcs.values():
+            for st in ast.walk(fi.node):
+                if isinstance(st, ast.Expr) and isinstance(st.value, ast.Call) and isinstance(st.value.func, ast.Attribute) and st.value.func.attr == method:
+                    sites.append((fi, st))
+    defs = [(ci, ci.methods[method]) for m in S.modules.values() for ci in m.classes.values() if method in ci.methods]
+    if not sites or not defs:
+        raise AnchorMissing(f"`{method}`: no call for effect / no definition found")
+    mut = {}
+
+    def mutates(fi, seen=()):
+        if fi.name in mut:
+            return mut[fi.name]
+        res = False
+        for st in _own_walk(fi.node):
+            tg = []
+            if isinstance(st, ast.Assign):
+                tg = st.targets
+            elif isinstance(st, (ast.AugAssign, ast.AnnAssign)):
+                tg = [st.target]
+            for t in tg:
+                for x in ast.walk(t):
+                    if isinstance(x, (ast.Attribute, ast.Subscript)) and isinstance(x.ctx, ast.Store):
+                        b = x
+                        while isinstance(b, (ast.Attribute, ast.Subscript)):
+                            b = b.value
+                        if isinstance(b, ast.Name) and b.id == "self":
+                            res = True
+            if isinstance(st, ast.Expr) and isinstance(st.value, ast.Call) and isinstance(st.value.func, ast.Attribute):
+                f = st.value.func
+                b = f.value
+                while isinstance(b, (ast.Attribute, ast.Subscript)):
+                    b = b.value
+                if isinstance(b, ast.Name) and b.id == "self" and f.value is not b:
+                    # self.<attr>.<m>(...) for effect: mutates when every package definition of <m> mutates
+                    inner = [c.methods[f.attr] for m_ in S.modules.values() for c in m_.classes.values() if f.attr in c.methods]
+                    if inner and all(x.name in seen or mutates(x, seen + (fi.name,)) for x in inner if x.name != fi.name):
+                        res = True
+        mut[fi.name] = res
+        return res
+
+    for ci, fd in defs:
+        chk.touch(fd.name)
+        chk.ob(rule, fd.where(), f"{ci.name}.{method} modifies its receiver: it is called for its effect at {len(sites)} site(s) "
+               f"({', '.join(sorted({s_[0].qual for s_ in sites}))[:120]})", mutates(fd), key=f"for-effect|{ci.name}.{method}")
